@@ -41,9 +41,10 @@ Inductive estep :=
 
 Inductive case :=
 | CEvid (steps : list estep) (arch : list (Z * Z * Z * bool))
-  (** [subs]: every MsgAddEvidence accepted, in order, re-submissions included; [evs]: the evidence
-      list read back from the real queue before pruning *)
-| CPrune (sn : list (Z * Z)) (total : Z) (public error : bool) (subs evs : list (Z * Z * Z * bool))
+  (** [ops]: the message's history as driven through the real keeper, in order: (0, v, tag, bytes, bad)
+      = MsgAddEvidence accepted, (1, ..) = SetMessageErrorData, (2, ..) = SetMessagePublicAccessData;
+      [public] [error] [evs]: the flags and the evidence list read back from the real queue before pruning *)
+| CPrune (sn : list (Z * Z)) (total : Z) (public error : bool) (ops : list (Z * Z * Z * Z * bool)) (evs : list (Z * Z * Z * bool))
          (refuse : list Z) (calls : list Z) (jailed : list Z).
 
 Definition same_set (a b : list Z) : bool :=
@@ -72,6 +73,11 @@ Definition ikeqb (a b : Z * Z) : bool := (fst a =? fst b) && (snd a =? snd b).
 Definition mk_ev (t : Z * Z * Z * bool) : evidence :=
   let '(v, tag, d, bad) := t in {| ev_val := v; ev_tag := tag; ev_data := d; ev_bad := bad |}.
 
+Definition mk_mop (t : Z * Z * Z * Z * bool) : mop :=
+  let '(k, v, tag, d, bad) := t in
+  if k =? 0 then MEvidence {| ev_val := v; ev_tag := tag; ev_data := d; ev_bad := bad |}
+  else if k =? 1 then MSetError else MSetPublic.
+
 Definition zlist_eqb := list_eqb Z.eqb.
 Definition ev_eqb (a b : evidence) : bool :=
   (ev_val a =? ev_val b) && (ev_tag a =? ev_tag b) && (ev_data a =? ev_data b) && Bool.eqb (ev_bad a) (ev_bad b).
@@ -83,10 +89,11 @@ Definition check (c : case) : bool :=
     | None => false
     | Some s => forallb (fun '(t, b, e, a) => Bool.eqb (memz (ccp t b e) (st_archive s)) a) arch
     end
-  | CPrune sn total public error subs evs refuse calls jailed =>
+  | CPrune sn total public error ops evs refuse calls jailed =>
     let snap := {| sn_vals := sn; sn_total := total |} in
-    let m := msg_of_submissions public error (map mk_ev subs) in
+    let m := msg_of_history (map mk_mop ops) in
     let cs := prune_calls ikeqb ikey (fun g => g) snap m in
+    Bool.eqb (pm_public m) public && Bool.eqb (pm_error m) error &&
     list_eqb ev_eqb (pm_evs m) (map mk_ev evs) &&
     zlist_eqb cs calls &&
     same_set (prune_job ikeqb ikey (fun g => g) (fun _ v => negb (memz v refuse)) snap [] m) jailed
